@@ -66,6 +66,10 @@ func (d *Decoder) ReadPointerFlag() (byte, error) {
 	if err != nil {
 		return 0, err
 	}
+	// an optional (or two-way variant) is introduced by 0 or 1; anything else is not an encoding of any value
+	if firstByte > 1 {
+		return 0, fmt.Errorf("invalid discriminator %d (expected 0 or 1)", firstByte)
+	}
 	return firstByte, nil
 }
 
